@@ -267,6 +267,16 @@ fn environment_sweep(tier: &str, rec: &Recorder, out: &mut RunOutput) {
     inputs.push(("gnp(30,0.15,undirected,seed 3)".into(), Box::new(|| random::fast_gnp_random_graph(30, 0.15, false, Some(3)).unwrap())));
     inputs.push(("gnp(25,0.15,directed,seed 4)".into(), Box::new(|| random::fast_gnp_random_graph(25, 0.15, true, Some(4)).unwrap())));
     inputs.push(("complete_graph(6)".into(), Box::new(|| graphrs::generators::classic::complete_graph(6, false))));
+    for n in [30i32, 100] {
+        // long cycles: several aggregation levels with exact ties on every level
+        inputs.push((format!("cycle({n})"), Box::new(move || {
+            let mut g: graphrs::Graph<i32, ()> = graphrs::Graph::new(graphrs::GraphSpecs::undirected_create_missing());
+            for k in 0..n {
+                g.add_edge(Edge::new(k, (k + 1) % n)).unwrap();
+            }
+            g
+        })));
+    }
     for (i, (label, n, es)) in named().into_iter().enumerate() {
         let _ = i;
         let es2 = es.clone();
@@ -283,7 +293,8 @@ fn environment_sweep(tier: &str, rec: &Recorder, out: &mut RunOutput) {
     }
     let inputs = std::sync::Arc::new(inputs);
     for ii in 0..inputs.len() {
-        for seed in [0u64, 1, 2] {
+        // ordinary seeds and the ends of the seed range (a seed is any u64)
+        for seed in [0u64, 1, 2, u64::MAX, u64::MAX - 1, 1u64 << 63] {
             let inp = inputs.clone();
             let reference = on_fresh_thread(0, move || canon_levels(&louvain::louvain_partitions(&(inp[ii].1)(), false, None, None, Some(seed)))).unwrap_or_else(|e| format!("panic {}", e.msg));
             for hs in 1..hash_seeds {
